@@ -152,6 +152,12 @@ func verifTunnelToBackend(m *msg.UDPPacket) bool {
 	if verif.CalledInIter("net.DialUDP") && verif.IterRet[error]("net.DialUDP", 1) != nil {
 		return !verif.CalledInIter("net.conn).Write") && !verif.CalledInIter("go:")
 	}
+	// the backend socket is looked up, and when new registered, under the
+	// packet's user address - never under any other address of the packet
+	keyed := verif.CalledWithInIter("UDPAddr).String", 0, m.RemoteAddr) && (m.LocalAddr == m.RemoteAddr || !verif.CalledWithInIter("UDPAddr).String", 0, m.LocalAddr))
+	if !keyed {
+		return false
+	}
 	wrote := verif.CalledInIter("net.conn).Write") && verif.Same(verif.IterArg[[]byte]("net.conn).Write", 1), verif.IterRet[[]byte]("udp.GetContent", 0))
 	if verif.CalledInIter("net.DialUDP") {
 		c := verif.IterRet[*net.UDPConn]("net.DialUDP", 0)
